@@ -21,7 +21,7 @@ SUBS = ["sub", "deep", "x1", "Node"]
 SHORTS = ["A", "B", "C", "Msg", "Zed", "a1"]
 
 
-def definitions(max_defs: int = 8, roots: int = 2, versions: bool = True, shorts: typing.Optional[typing.List[str]] = None, subs: typing.Optional[typing.List[str]] = None) -> st.SearchStrategy:
+def definitions(max_defs: int = 8, roots: int = 2, versions: bool = True, shorts: typing.Optional[typing.List[str]] = None, subs: typing.Optional[typing.List[str]] = None, min_roots: int = 1, min_defs: int = 1) -> st.SearchStrategy:
     def build(args: typing.Any) -> typing.Any:
         root_specs, raw = args
         roots_ = []
@@ -79,7 +79,7 @@ def definitions(max_defs: int = 8, roots: int = 2, versions: bool = True, shorts
             ),
         }
     )
-    return st.tuples(st.lists(st.sampled_from(ROOT_NAMES), min_size=1, max_size=roots, unique=True), st.lists(one, min_size=1, max_size=max_defs)).map(build)
+    return st.tuples(st.lists(st.sampled_from(ROOT_NAMES), min_size=min_roots, max_size=roots, unique=True), st.lists(one, min_size=min_defs, max_size=max_defs)).map(build)
 
 
 # ------------------------------------------------------------------------------------------------------------- the model
